@@ -51,3 +51,30 @@ func clockAlphabet() []clockSetting {
 	}
 	return out
 }
+
+// mapOrdersAfter lists the map iteration orders under which an execution is repeated: the current one only when the
+// first execution ranged over no map with two or more keys (reached == the counter before it), otherwise every other
+// alternative. The caller restores the current order afterwards (withMapOrder does).
+func mapOrdersAfter(before int64) []int {
+	cur := mapOrderCurrent()
+	if mapOrderReached() == before {
+		return []int{cur}
+	}
+	var out []int
+	for k := 0; k < mapOrderAlternatives(); k++ {
+		if k != cur {
+			out = append(out, k)
+		}
+	}
+	if len(out) == 0 {
+		out = []int{cur}
+	}
+	return out
+}
+
+func withMapOrder(k int, fn func()) {
+	cur := mapOrderCurrent()
+	mapOrderSet(k)
+	defer mapOrderSet(cur)
+	fn()
+}
